@@ -56,7 +56,25 @@ Faults(b) ==
           IF \E x \in 1..n : doc[x].k = "OperationId" THEN "dupopid" ELSE "none", n + 2, "kw", 3),
         F("undefenum", doc \o <<D("TYPE", <<"@t9">>, "", FALSE, "objen", "")>>,
           IF \E x \in 1..n : doc[x].k = "ENUM" THEN "none" ELSE "enumnotfound", n + 1, "body1", 1),
-        F("resp-nobody", doc \o <<D("GET", <<"pdup">>, "", FALSE, "", "")>>, "dupparam", n + 1, "kw", 1)}
+        F("resp-nobody", doc \o <<D("GET", <<"pdup">>, "", FALSE, "", "")>>, "dupparam", n + 1, "kw", 1),
+        \* --- faults found by validateCatalog / the add functions of nested directives ---
+        F("response-without-body", doc \o <<D("GET", <<"pz">>, "", FALSE, "", ""), D("RESP", <<>>, "", FALSE, "", "200"),
+                                            D("Headers", <<>>, "", FALSE, "hdr", ""), D("RESP", <<"any">>, "", FALSE, "", "404")>>, "respnobody", n + 2, "kw", 4),
+        F("request-without-body", doc \o <<D("POST", <<"pz">>, "", FALSE, "", ""), D("Request", <<>>, "", FALSE, "", ""),
+                                           D("Headers", <<>>, "", FALSE, "hdr", ""), D("RESP", <<"any">>, "", FALSE, "", "200")>>, "reqnobody", n + 2, "kw", 4),
+        F("info-empty", IF \E x \in 1..n : doc[x].k = "INFO" THEN doc ELSE doc \o <<D("INFO", <<>>, "", FALSE, "", "")>>,
+                        IF \E x \in 1..n : doc[x].k = "INFO" THEN "none" ELSE "infoempty", n + 1, "kw", 1),
+        F("type-and-notation", doc \o <<D("GET", <<"pz">>, "", FALSE, "", ""), D("RESP", <<"@t1", "any">>, "", FALSE, "", "200")>>, "typeandnotation", n + 2, "kw", 2),
+        F("body-under-response-with-parameter", doc \o <<D("GET", <<"pz">>, "", FALSE, "", ""), D("RESP", <<"any">>, "", FALSE, "", "200"),
+                                                         D("Body", <<"any">>, "", FALSE, "", "")>>, "paramsforbidden", n + 2, "kw", 3),
+        F("method-without-protocol", doc \o <<D("URL", <<"pz">>, "", FALSE, "", ""), D("Method", <<"bar">>, "", FALSE, "", "")>>, "noprotocol", n + 2, "kw", 2),
+        F("wrong-protocol", doc \o <<D("URL", <<"pz">>, "", FALSE, "", ""), D("Protocol", <<"soap">>, "", FALSE, "", "")>>, "badprotocol", n + 2, "kw", 2),
+        F("http-and-rpc-in-one-url", doc \o <<D("URL", <<"pz">>, "", FALSE, "", ""), D("Protocol", <<"json-rpc-2.0">>, "", FALSE, "", ""),
+                                              D("GET", <<>>, "", FALSE, "", ""), D("RESP", <<"any">>, "", FALSE, "", "200")>>, "mixedurl", n + 3, "kw", 4),
+        F("unused-path-parameter", doc \o <<D("GET", <<"pci">>, "", TRUE, "", ""), D("Path", <<>>, "", FALSE, "px", ""), D("RESP", <<"any">>, "", FALSE, "", "200"), CloseTok>>,
+                                   IF \E x \in 1..n : doc[x].k \in Methods /\ doc[x].p = <<"pci">> /\ doc[x].k = "GET" THEN "none" ELSE "unusedpathparam", n + 2, "kw", 4),
+        F("description-without-text", doc \o <<D("TAG", <<"@g9">>, "", FALSE, "", ""), D("Description", <<>>, "", FALSE, "", "")>>, "descempty", n + 2, "kw", 2),
+        F("empty-path-parameter", doc \o <<D("GET", <<"pempty">>, "", FALSE, "", ""), D("RESP", <<"any">>, "", FALSE, "", "200")>>, "emptyparam", n + 1, "kw", 2)}
 
 Init == base \in DOMAIN Bases /\ fault \in Faults(base)
 Next == UNCHANGED vars
